@@ -594,14 +594,14 @@ pub fn run_child(ctx: &mut Ctx) {
             let xd = xorb_dir.clone();
             let store = tp.external_run_async_task(async move { LocalClient::new(&xd, None) }).unwrap().unwrap();
             let mut xorb_chunks: HashMap<MerkleHash, Vec<(MerkleHash, usize)>> = HashMap::new();
-            for (h, _, _, _) in log.lock().unwrap().puts.iter() {
+            for (h, nchunks_put, _, _) in log.lock().unwrap().puts.iter() {
                 match store.get(h) { Ok(data) => { let _ = data; }, Err(e) => ctx.fail("C02", "stored-xorb-unreadable", format!("xorb {} cannot be read back: {e}", h.hex()), replay.clone()) }
                 // C15: "a validating server accepts them" — the seekable validator on the stored object, under the xorb's hash
                 let p = xorb_dir.join("xorbs").join(format!("default.{}", h.hex()));
                 if let Ok(f) = std::fs::File::open(&p) {
                     match cas_object::CasObject::validate_cas_object(&mut std::io::BufReader::new(f), h) {
                         Ok(Some(_)) => ctx.stat("stored_xorbs_validated"),
-                        other => ctx.fail("C15", "stored-xorb-rejected-by-validator", format!("xorb {} ({} chunks, limit {maxc}) was handed to the store within all limits, but the validator a server runs on it answers {}", h.hex(), log.lock().unwrap().puts.iter().find(|p| p.0 == *h).map(|p| p.1).unwrap_or(0), match other { Ok(None) => "hash mismatch / invalid".to_string(), Err(e) => format!("{e:?}").chars().take(120).collect(), _ => String::new() }), replay.clone()),
+                        other => ctx.fail("C15", "stored-xorb-rejected-by-validator", format!("xorb {} ({} chunks, limit {maxc}) was handed to the store within all limits, but the validator a server runs on it answers {}", h.hex(), nchunks_put, match other { Ok(None) => "hash mismatch / invalid".to_string(), Err(e) => format!("{e:?}").chars().take(120).collect(), _ => String::new() }), replay.clone()),
                     }
                 } else { ctx.stat("stored_xorb_file_not_found_for_validation"); }
             }
